@@ -348,6 +348,16 @@ def from_identity(ex, st, fr, name, args, dty):
     m = re.match(r'^<(.*) as (?:std::convert::)?From<(.*)>>::from$', name.strip())
     if m and m.group(1).strip() == m.group(2).strip():
         return ok(st, args[0])
+    # u8 -> char / wider unsigned integers: zero extension
+    if m and m.group(2).strip() == 'u8' and m.group(1).strip() in ('char', 'u16', 'u32', 'u64', 'usize'):
+        a = args[0]
+        if isinstance(a, VSym) and isinstance(a.term, tuple) and a.term and a.term[0] == 'z3':
+            a = VInt(a.term[1], 8)
+        if isinstance(a, VSym):
+            a = ex.sym_int(a.term, 8)
+        if isinstance(a, VInt) and a.bits == 8:
+            bits = {'char': 32, 'u16': 16, 'u32': 32, 'u64': 64, 'usize': 64}[m.group(1).strip()]
+            return ok(st, VInt(z3.ZeroExt(bits - 8, a.e), bits))
     return None
 
 
@@ -356,6 +366,16 @@ def into_identity(ex, st, fr, name, args, dty):
     m = re.match(r'^<(.*) as (?:std::convert::)?Into<(.*)>>::into$', name.strip())
     if m and m.group(1).strip() == m.group(2).strip():
         return ok(st, args[0])
+    # u8 -> char / wider unsigned integers: zero extension
+    if m and m.group(1).strip() == 'u8' and m.group(2).strip() in ('char', 'u16', 'u32', 'u64', 'usize'):
+        a = args[0]
+        if isinstance(a, VSym) and isinstance(a.term, tuple) and a.term and a.term[0] == 'z3':
+            a = VInt(a.term[1], 8)
+        if isinstance(a, VSym):
+            a = ex.sym_int(a.term, 8)
+        if isinstance(a, VInt) and a.bits == 8:
+            bits = {'char': 32, 'u16': 16, 'u32': 32, 'u64': 64, 'usize': 64}[m.group(2).strip()]
+            return ok(st, VInt(z3.ZeroExt(bits - 8, a.e), bits))
     return None
 
 
@@ -624,3 +644,52 @@ def ne_default(ex, st, fr, name, args, dty):
 
 def names():
     return [fn.pattern for _, fn in MODELLED]
+
+
+# ---- integer methods of core::num (saturating / wrapping / checked arithmetic, min / max) -----------------------------------
+
+@model(r'core::num::<impl ([iu](8|16|32|64|128|size))>::(saturating_add|saturating_sub|wrapping_add|wrapping_sub|wrapping_mul|checked_add|checked_sub|checked_mul|saturating_mul|min|max|abs_diff)$')
+def int_methods(ex, st, fr, name, args, dty):
+    m = re.search(r'<impl ([iu](?:8|16|32|64|128|size))>::(\w+)$', strip_generics(name))
+    if not m or len(args) != 2 or not all(isinstance(a, VInt) for a in args):
+        return None
+    ity, op = m.group(1), m.group(2)
+    from execu import INT_TYPES
+    bits, signed = INT_TYPES[ity]
+    a, b = args[0].e, args[1].e
+    ext = (z3.SignExt if signed else z3.ZeroExt)
+    wa, wb = ext(bits, a), ext(bits, b)           # exact results in 2*bits
+    lo = z3.BitVecVal(-(1 << (bits - 1)) if signed else 0, 2 * bits)
+    hi = z3.BitVecVal((1 << (bits - 1)) - 1 if signed else (1 << bits) - 1, 2 * bits)
+    le = (lambda x, y: x <= y) if signed else z3.ULE
+    if op in ('min', 'max'):
+        c = le(a, b)
+        return ok(st, VInt(z3.If(c, a, b) if op == 'min' else z3.If(c, b, a), bits, signed))
+    if op == 'abs_diff':
+        return None
+    kind, arith = op.split('_', 1)
+    exact = {'add': wa + wb, 'sub': wa - wb, 'mul': wa * wb}[arith]
+    inr = z3.And((exact >= lo) if signed else z3.BoolVal(True) if arith != 'sub' else z3.UGE(wa, wb), (exact <= hi) if signed else z3.ULE(exact, hi))
+    if not signed and arith == 'sub':
+        inr = z3.UGE(a, b)
+    trunc = z3.Extract(bits - 1, 0, exact)
+    if kind == 'wrapping':
+        return ok(st, VInt(trunc, bits, signed))
+    if kind == 'saturating':
+        if signed:
+            sat = z3.If(exact < lo, z3.Extract(bits - 1, 0, lo), z3.If(exact > hi, z3.Extract(bits - 1, 0, hi), trunc))
+        else:
+            under = z3.ULT(a, b) if arith == 'sub' else z3.BoolVal(False)
+            sat = z3.If(under, z3.BitVecVal(0, bits), z3.If(z3.And(z3.Not(under), z3.UGT(exact, hi)) if arith != 'sub' else z3.BoolVal(False), z3.BitVecVal((1 << bits) - 1, bits), trunc))
+        return ok(st, VInt(z3.simplify(sat), bits, signed))
+    # checked_*: Option
+    out = []
+    if ex.feasible(st.pc + [inr]):
+        s2 = st.fork()
+        s2.pc.append(inr)
+        out.append((s2, mk('Option', 'Some', VInt(trunc, bits, signed)), 'ok', ''))
+    if ex.feasible(st.pc + [z3.Not(inr)]):
+        s2 = st.fork()
+        s2.pc.append(z3.Not(inr))
+        out.append((s2, mk('Option', 'None'), 'ok', ''))
+    return out
